@@ -58,7 +58,7 @@ impl VM {
             final(self).globals == old(self).globals,
     {
 //@LOOP 1 invariant self.stack@.len() == 0, self.frames@.len() == 1, self.frames@[0].ip == 0 && self.frames@[0].base_pointer == 0, self.ip == 0 && self.bp == 0, self.instructions@ == code.instructions@, self.globals == old(self).globals
-//@PREFIX file=vm.rs fn=run_code impl=VM until="loop {" sig="fn run_code(&mut self, code: Bytecode, gc: &mut GC) -> Result<Object, Error>" rules="R1;R4"
+//@PREFIX file=vm.rs fn=run_code impl=VM until="loop {" sig="fn run_code(&mut self, code: Bytecode, gc: &mut GC) -> Result<Object, Error>" rules="R1;R4;R11"
     }
 }
 
